@@ -236,6 +236,9 @@ def check(ctx):
         other = [d for d in code_defs if not (d.kind == "unpack" and d.value is chk)]
         for d in other:
             okd = d.kind == "assign" and (d.value in compiles or const_value(d.value, 0) is None)
+            if d.kind == "unpack" and isinstance(d.value, (ast.Tuple, ast.List)) and d.index is not None and d.index < len(d.value.elts):
+                # `flag, code = (False, None)`: the not-consulted arm of a conditional unpacking
+                okd = const_value(d.value.elts[d.index], 0) is None
             ctx.ob("R4", st, f"`{short(d.stmt, 70)}`: the code to run comes from the cache check or from the compilation", okd, key=f"{q}|code-source|{unparse(d.value)[:40]}", where=loc(d.stmt))
         for cc in compiles:
             node = node_in(cfg, stmt_of(cc))[0]
